@@ -97,13 +97,21 @@ fn run_one(prop: &str, ctx: &mut Ctx, idx: u64) {
                 idx,
                 J::obj().set("panic", J::s(&msg)),
             );
-        } else {
+        } else if matches!(prop, "C01" | "C02" | "C03" | "C04" | "C05" | "C06" | "C09" | "C10") {
+            // a search / build / round trip that panics did not deliver the result these
+            // properties promise
             ctx.rep.violation(
                 "panic",
                 format!("the library panicked while the case was evaluated: {msg}"),
                 idx,
                 J::obj().set("panic", J::s(&msg)),
             );
+        } else {
+            // C07, C08, C11-C15 decide panics where they compare a subject with a reference
+            // (one variant / setting / entry point panics and the other does not); a panic that
+            // reaches this point is outside what the property states: recorded, run inconclusive
+            ctx.rep.count("library_panics_outside_this_property", 1);
+            ctx.rep.note("library_panics", &format!("case {idx}: {msg}"));
         }
     }
 }
